@@ -391,6 +391,7 @@ class Report:
         self.analysed = {"files": set(), "functions": set()}
         self.assumptions = []
         self.samples = []
+        self.extra = {}
         kf = json.load(open(os.path.join(VERIF, "known_findings.json")))
         self.known = {(f["property"], f["key"]): f for f in kf.get("findings", [])}
         self.used_known = set()
@@ -512,6 +513,7 @@ class Report:
                 "violations_detail": [{"rule": v["rule"], "key": v["key"], "where": v["where"], "why": v["why"]} for v in self.violations],
                 "info": self.infos,
                 "exhaustive": True,
+                **self.extra,
             },
             "assumptions": self.assumptions + ([level_note] if level_note else []),
             "wall_s": round(time.time() - self.t0, 3),
